@@ -6,6 +6,81 @@ import TzVerif.Model.Find
 namespace TzVerif.Proofs
 open TzVerif.Model
 
+theorem foldl_push_gen (rs : List Found) : ∀ r0 : RefMut, r0.currentIndex ≤ r0.buf.length →
+    (rs.foldl RefMut.push r0).buf.length = r0.buf.length ∧
+    (rs.foldl RefMut.push r0).currentIndex = min r0.buf.length (r0.currentIndex + rs.length) ∧
+    (rs.foldl RefMut.push r0).count = r0.count + rs.length ∧
+    ∀ j, (rs.foldl RefMut.push r0).buf[j]? =
+      if r0.currentIndex ≤ j ∧ j < min r0.buf.length (r0.currentIndex + rs.length)
+      then rs[j - r0.currentIndex]?.map some else r0.buf[j]? := by
+  induction rs with
+  | nil =>
+    intro r0 h
+    simp only [List.foldl_nil, List.length_nil, Nat.add_zero, true_and]
+    refine ⟨by omega, ?_⟩
+    intro j
+    split
+    · omega
+    · rfl
+  | cons f rs ih =>
+    intro r0 h
+    simp only [List.foldl_cons, List.length_cons]
+    by_cases hlt : r0.currentIndex < r0.buf.length
+    · have hp : r0.push f = { buf := r0.buf.set r0.currentIndex (some f), currentIndex := r0.currentIndex + 1, count := r0.count + 1 } := by
+        simp [RefMut.push, hlt]
+      obtain ⟨h1, h2, h3, h4⟩ := ih (r0.push f) (by rw [hp]; simp; omega)
+      rw [hp] at h1 h2 h3 h4
+      simp only [List.length_set] at h1 h2 h3 h4
+      rw [hp]
+      refine ⟨h1, by omega, by omega, ?_⟩
+      intro j
+      rw [h4 j]
+      by_cases hj : j = r0.currentIndex
+      · subst hj
+        rw [if_neg (by omega), if_pos (by omega), List.getElem?_set_self hlt]
+        simp
+      · rw [List.getElem?_set_ne (by omega)]
+        by_cases hj2 : r0.currentIndex + 1 ≤ j
+        · have : j - r0.currentIndex = (j - (r0.currentIndex + 1)) + 1 := by omega
+          rw [this, List.getElem?_cons_succ]
+          have e : (r0.currentIndex + 1 ≤ j ∧ j < min r0.buf.length (r0.currentIndex + 1 + rs.length)) ↔
+            (r0.currentIndex ≤ j ∧ j < min r0.buf.length (r0.currentIndex + (rs.length + 1))) := by omega
+          simp only [e]
+        · rw [if_neg (by omega), if_neg (by omega)]
+    · have hp : r0.push f = { r0 with count := r0.count + 1 } := by
+        simp [RefMut.push, hlt]
+      obtain ⟨h1, h2, h3, h4⟩ := ih (r0.push f) (by rw [hp]; exact h)
+      rw [hp] at h1 h2 h3 h4
+      rw [hp]
+      simp only at h1 h2 h3 h4
+      refine ⟨h1, by omega, by omega, ?_⟩
+      intro j
+      rw [h4 j, if_neg (by omega), if_neg (by omega)]
+
+
+theorem foldl_push_new (buf : List (Option Found)) (rs : List Found) :
+    (rs.foldl RefMut.push (RefMut.new buf)).buf.length = buf.length ∧
+    (rs.foldl RefMut.push (RefMut.new buf)).currentIndex = min buf.length rs.length ∧
+    (rs.foldl RefMut.push (RefMut.new buf)).count = rs.length ∧
+    ∀ j, (rs.foldl RefMut.push (RefMut.new buf)).buf[j]? =
+      if j < min buf.length rs.length then rs[j]?.map some else buf[j]? := by
+  have := foldl_push_gen rs (RefMut.new buf) (by simp [RefMut.new])
+  simpa [RefMut.new] using this
+
+theorem foldl_push_buf (buf : List (Option Found)) (rs : List Found) :
+    (rs.foldl RefMut.push (RefMut.new buf)).buf =
+      (rs.take buf.length).map some ++ buf.drop (min buf.length rs.length) := by
+  obtain ⟨h1, h2, h3, h4⟩ := foldl_push_new buf rs
+  apply List.ext_getElem?
+  intro j
+  rw [h4 j, List.getElem?_append]
+  simp only [List.length_map, List.length_take, List.getElem?_map, List.getElem?_drop]
+  by_cases hj : j < min buf.length rs.length
+  · rw [if_pos hj, if_pos (by omega), List.getElem?_take_of_lt (by omega)]
+  · rw [if_neg hj, if_neg (by omega)]
+    congr 1
+    omega
+
 theorem foldl_push_spec (buf : List (Option Found)) (rs : List Found) :
     let r := rs.foldl RefMut.push (RefMut.new buf)
     r.buf = (rs.take buf.length).map some ++ buf.drop (min buf.length rs.length) ∧
@@ -13,16 +88,47 @@ theorem foldl_push_spec (buf : List (Option Found)) (rs : List Found) :
     r.count = rs.length ∧
     r.data = (rs.take buf.length).map some ∧
     (r.isExhaustive = true ↔ buf.length ≥ rs.length) := by
-  sorry
+  intro r
+  obtain ⟨h1, h2, h3, h4⟩ := foldl_push_new buf rs
+  have hb := foldl_push_buf buf rs
+  refine ⟨hb, h1, h3, ?_, ?_⟩
+  · show r.buf.take r.currentIndex = _
+    show (rs.foldl RefMut.push (RefMut.new buf)).buf.take (rs.foldl RefMut.push (RefMut.new buf)).currentIndex = _
+    rw [hb, h2]
+    rw [List.take_append_of_le_length (by simp)]
+    rw [List.take_of_length_le (by simp)]
+  · show ((rs.foldl RefMut.push (RefMut.new buf)).currentIndex == (rs.foldl RefMut.push (RefMut.new buf)).count) = true ↔ _
+    rw [h2, h3]
+    simp only [beq_iff_eq]
+    omega
 
 theorem foldl_push_tail (buf : List (Option Found)) (rs : List Found) (i : Nat)
     (hi : min buf.length rs.length ≤ i) (hi' : i < buf.length) :
     (rs.foldl RefMut.push (RefMut.new buf)).buf[i]? = buf[i]? := by
-  sorry
+  obtain ⟨_, _, _, h4⟩ := foldl_push_new buf rs
+  have _ := hi'
+  rw [h4 i, if_neg (by omega)]
+
+theorem flattenOpts_map_some (rs : List Found) : flattenOpts (rs.map some) = rs := by
+  induction rs with
+  | nil => rfl
+  | cons f rs ih => simp [flattenOpts, ih]
 
 theorem foldl_push_accessors (buf : List (Option Found)) (rs : List Found) (h : buf.length ≥ rs.length) :
     let r := rs.foldl RefMut.push (RefMut.new buf)
     r.unique = listUnique rs ∧ r.earliest = listEarliest rs ∧ r.latest = listLatest rs := by
-  sorry
+  intro r
+  have hd : r.data = rs.map some := by
+    have := (foldl_push_spec buf rs).2.2.2.1
+    rw [List.take_of_length_le h] at this
+    exact this
+  have hf : flattenOpts r.data = rs := by rw [hd, flattenOpts_map_some]
+  refine ⟨?_, ?_, ?_⟩
+  · unfold RefMut.unique
+    rw [hf]
+    unfold listUnique
+    split <;> simp_all
+  · unfold RefMut.earliest; rw [hf]
+  · unfold RefMut.latest; rw [hf]
 
 end TzVerif.Proofs
